@@ -145,6 +145,31 @@ impl C08 {
                 // a swap may keep the order (same namespace): the spec decides
                 out.op(extend_line(ver, o == ods, &o), "extend/swapped", true);
             }
+            // whole rows / whole columns exchanged: every row stays sorted but columns do not (and vice versa)
+            if k >= 2 {
+                let r1 = rng.usize(0, k - 2);
+                let r2 = rng.usize(r1 + 1, k - 1);
+                let mut o = ods.clone();
+                for c in 0..k {
+                    o.swap(r1 * k + c, r2 * k + c);
+                }
+                out.op(extend_line(ver, o == ods, &o), "extend/rows-exchanged", true);
+                let mut o = ods.clone();
+                for r in 0..k {
+                    o.swap(r * k + r1, r * k + r2);
+                }
+                out.op(extend_line(ver, o == ods, &o), "extend/columns-exchanged", true);
+                let mut f = full.clone();
+                for c in 0..w {
+                    f.swap(r1 * w + c, r2 * w + c);
+                }
+                out.op(new_line(ver, f == full, &f), "new/rows-exchanged", true);
+                let mut f = full.clone();
+                for r in 0..w {
+                    f.swap(r * w + r1, r * w + r2);
+                }
+                out.op(new_line(ver, f == full, &f), "new/columns-exchanged", true);
+            }
             let mut o = ods.clone();
             o[0][0] = rng.range(1, 254) as u8;
             out.op(extend_line(ver, false, &o), "extend/bad-namespace-version", true);
